@@ -1,3 +1,448 @@
 package main
 
-func cmdCheck(args []string) int { return 0 }
+// check.go: the per-property check: generate obligations from /repo's current
+// tree, discharge them, compare with obligations.lock and known_findings.json,
+// replay counterexamples on the real code, write evidence, report.
+
+import (
+	"encoding/json"
+	"flag"
+	"fmt"
+	"os"
+	"path/filepath"
+	"sort"
+	"strings"
+	"time"
+)
+
+type KnownFinding struct {
+	Property   string `json:"property"`
+	Obligation string `json:"obligation"`
+	Input      string `json:"input"`            // human description of the failing input class
+	Except     string `json:"except,omitempty"` // contract expression describing that class (over parameters / old state)
+	Status     string `json:"status"`           // open | fixed
+	Commit     string `json:"commit,omitempty"`
+	Note       string `json:"note,omitempty"`
+}
+
+type LockFile map[string][]string
+
+type checkOpts struct {
+	prop, tier, repo, verif, contracts string
+	seed                               int
+	updateLock                         bool
+	only                               string
+	keep                               bool
+}
+
+func cmdCheck(args []string) int {
+	fs := flag.NewFlagSet("check", flag.ExitOnError)
+	var o checkOpts
+	fs.StringVar(&o.prop, "prop", "", "property id")
+	fs.StringVar(&o.tier, "tier", "quick", "quick|thorough")
+	fs.StringVar(&o.repo, "repo", "/repo", "repository")
+	fs.StringVar(&o.verif, "verif", "/verif", "verif dir")
+	fs.StringVar(&o.contracts, "contracts", "", "contract file (default <repo>/zygo/zz_contracts_verif.go)")
+	fs.BoolVar(&o.updateLock, "update-lock", false, "rewrite this property's entry in obligations.lock (development only)")
+	fs.StringVar(&o.only, "only", "", "only functions matching this substring (development)")
+	fs.BoolVar(&o.keep, "keep", false, "keep SMT scripts")
+	fs.Parse(args)
+	if o.contracts == "" {
+		o.contracts = filepath.Join(o.repo, "zygo", "zz_contracts_verif.go")
+	}
+	if s := os.Getenv("VERIF_SEED"); s != "" {
+		fmt.Sscan(s, &o.seed)
+	}
+	if t := os.Getenv("VERIF_TIER"); t == "quick" || t == "thorough" {
+		if len(args) == 0 {
+			o.tier = t
+		}
+	}
+	return runCheck(o)
+}
+
+type failure struct {
+	o      *Obligation
+	reason string
+	known  *KnownFinding
+}
+
+func runCheck(o checkOpts) int {
+	start := time.Now()
+	prop := o.prop
+	evPath := filepath.Join(o.verif, "evidence", prop+".json")
+	os.MkdirAll(filepath.Dir(evPath), 0o755)
+	os.Remove(evPath)
+	fatal := func(msg string) int {
+		// machinery failure: fail closed, with a VIOLATION line so nothing is silently skipped
+		rp := writeReplay(o, prop, "machinery", map[string]interface{}{"error": msg})
+		fmt.Printf("zvc: %s\n", msg)
+		fmt.Printf("VIOLATION property=%s replay=%s obligation=machinery-error no-failing-input-found\n", prop, rp)
+		return 1
+	}
+	c, err := loadCtx(o.repo, o.contracts)
+	if err != nil {
+		return fatal("cannot load repository / contracts: " + err.Error())
+	}
+	var known []KnownFinding
+	if b, err := os.ReadFile(filepath.Join(o.verif, "known_findings.json")); err == nil {
+		if err := json.Unmarshal(b, &known); err != nil {
+			return fatal("known_findings.json: " + err.Error())
+		}
+	}
+	lock := LockFile{}
+	if b, err := os.ReadFile(filepath.Join(o.verif, "obligations.lock")); err == nil {
+		json.Unmarshal(b, &lock)
+	}
+
+	// functions under contract for this property
+	var fnames []string
+	for _, name := range c.cf.Order {
+		fc := c.cf.Funcs[name]
+		tagged := false
+		for _, cl := range fc.Clauses {
+			if hasProp(cl, prop) && len(cl.Props) > 0 {
+				tagged = true
+			}
+		}
+		if tagged && (o.only == "" || strings.Contains(name, o.only)) {
+			fnames = append(fnames, name)
+		}
+	}
+	var obls []*Obligation
+	var vcs []*VC
+	var fails []failure
+	trusted := []string{}
+	for _, name := range fnames {
+		fc := c.cf.Funcs[name]
+		if strings.HasPrefix(name, "dyn ") || strings.Contains(name, ".") && c.funcs[name] == nil && !strings.HasPrefix(name, "(") {
+			// interface-method / dynamic contracts are assumptions, not verified here
+			trusted = append(trusted, name)
+			continue
+		}
+		if fc.has("trusted") {
+			trusted = append(trusted, name)
+			continue
+		}
+		fn := c.funcs[name]
+		if fn == nil {
+			ob := &Obligation{Name: name + "#anchor", Kind: "anchor", Fn: name, Status: "missing", Backend: "ssa-scan"}
+			obls = append(obls, ob)
+			fails = append(fails, failure{o: ob, reason: "anchor-lost: function under contract not found in /repo"})
+			continue
+		}
+		vc, err := c.verifyFunc(fn, fc, prop, false)
+		if err != nil {
+			ob := &Obligation{Name: name + "#encode", Kind: "encode", Fn: name, Status: "error", Backend: "ssa-scan"}
+			obls = append(obls, ob)
+			fails = append(fails, failure{o: ob, reason: "cannot encode: " + err.Error()})
+			continue
+		}
+		vcs = append(vcs, vc)
+		obls = append(obls, vc.obls...)
+	}
+	// scan obligations (frame.write / effect.call / guard.recover / lang.incl ...)
+	scanObls, scanInfo := c.scanObligations(prop)
+	obls = append(obls, scanObls...)
+
+	for _, e := range c.contractErrors {
+		ob := &Obligation{Name: "contract#" + sanitizeFile(e), Kind: "contract", Status: "error", Backend: "ssa-scan", Model: e}
+		obls = append(obls, ob)
+		fails = append(fails, failure{o: ob, reason: e})
+	}
+
+	tmp, _ := os.MkdirTemp("", "zvc-"+prop+"-")
+	if !o.keep {
+		defer os.RemoveAll(tmp)
+	} else {
+		fmt.Println("scripts kept in", tmp)
+	}
+	budget, all := 10, false
+	if o.tier == "thorough" {
+		budget, all = 60, true
+	}
+	dischargeAll(obls, tmp, budget, all, 16)
+
+	// classify
+	byName := map[string]*Obligation{}
+	nCanary, nDischarged, nClaimed := 0, 0, 0
+	byBackend := map[string]int{}
+	byKind := map[string]int{}
+	solverTime := 0.0
+	var kfLines []string
+	var extraObls []*Obligation
+	for _, ob := range obls {
+		byName[ob.Name] = ob
+		solverTime += ob.TimeS
+		if ob.Canary {
+			nCanary++
+			if ob.Status != "sat" {
+				fails = append(fails, failure{o: ob, reason: "vacuity canary not reachable (status " + ob.Status + "): preconditions or invariant contradictory"})
+			}
+			continue
+		}
+		if ob.Kind == "anchor" || ob.Kind == "encode" || ob.Kind == "contract" {
+			continue
+		}
+		if ob.Backend == "ssa-scan" || ob.Backend == "lang" {
+			nClaimed++
+			byKind[ob.Kind]++
+			if ob.Status == "ok" {
+				nDischarged++
+				byBackend[ob.Backend]++
+				continue
+			}
+			kf := findKnown(known, prop, ob.Name)
+			if kf != nil {
+				nClaimed--
+				byKind[ob.Kind]--
+				kfLines = append(kfLines, fmt.Sprintf("KNOWN-FINDING: property=%s %s: %s", prop, ob.Name, kf.Input))
+				continue
+			}
+			fails = append(fails, failure{o: ob, reason: ob.Model})
+			continue
+		}
+		nClaimed++
+		byKind[ob.Kind]++
+		if ob.Status == "unsat" {
+			nDischarged++
+			byBackend[ob.Solver]++
+			continue
+		}
+		// failing obligation: known finding?
+		kf := findKnown(known, prop, ob.Name)
+		if kf != nil && kf.Except != "" {
+			// the obligation must hold outside the recorded failing input class
+			v := *ob
+			v.Name = ob.Name + "~outside-known-finding"
+			cond, err := exceptTerm(ob, kf.Except)
+			if err != nil {
+				fails = append(fails, failure{o: ob, reason: "known-finding except clause does not translate: " + err.Error()})
+				continue
+			}
+			v.Goal = fmt.Sprintf("(=> (not %s) %s)", cond, ob.Goal)
+			v.Status, v.Model = "", ""
+			discharge(&v, tmp, budget, all)
+			solverTime += v.TimeS
+			extraObls = append(extraObls, &v)
+			if v.Status == "unsat" {
+				nDischarged++
+				byBackend[v.Solver]++
+				kfLines = append(kfLines, fmt.Sprintf("KNOWN-FINDING: property=%s %s: %s", prop, ob.Name, kf.Input))
+				continue
+			}
+			v.Kind = ob.Kind
+			fails = append(fails, failure{o: &v, reason: "obligation fails outside the recorded known-finding input class"})
+			continue
+		}
+		if kf != nil {
+			nClaimed--
+			byKind[ob.Kind]--
+			kfLines = append(kfLines, fmt.Sprintf("KNOWN-FINDING: property=%s %s: %s", prop, ob.Name, kf.Input))
+			continue
+		}
+		fails = append(fails, failure{o: ob, reason: "obligation not discharged (" + ob.Status + ")"})
+	}
+	// lock
+	var genNames []string
+	for _, ob := range obls {
+		if !ob.Canary && ob.Kind != "encode" && ob.Kind != "contract" && ob.Kind != "anchor" {
+			genNames = append(genNames, ob.Name)
+		}
+	}
+	sort.Strings(genNames)
+	if o.updateLock {
+		lock[prop] = genNames
+		b, _ := json.MarshalIndent(lock, "", " ")
+		os.WriteFile(filepath.Join(o.verif, "obligations.lock"), append(b, '\n'), 0o644)
+	}
+	if o.only == "" {
+		for _, n := range lock[prop] {
+			if byName[n] == nil {
+				ob := &Obligation{Name: n, Kind: "anchor", Status: "missing", Backend: "ssa-scan"}
+				fails = append(fails, failure{o: ob, reason: "anchor-lost: locked obligation is no longer generated from /repo"})
+			}
+		}
+		if len(lock[prop]) == 0 && !o.updateLock {
+			return fatal("no locked obligations for " + prop + " (obligations.lock missing or empty)")
+		}
+	}
+	if nClaimed == 0 {
+		return fatal("zero obligations generated for " + prop)
+	}
+
+	// report
+	for _, l := range kfLines {
+		fmt.Println(l)
+	}
+	violations := 0
+	seen := map[string]bool{}
+	for _, f := range fails {
+		if seen[f.o.Name] {
+			continue
+		}
+		seen[f.o.Name] = true
+		violations++
+		rep := map[string]interface{}{
+			"property": prop, "obligation": f.o.Name, "kind": f.o.Kind, "function": f.o.Fn, "position": f.o.Pos,
+			"status": f.o.Status, "solver": f.o.Solver, "reason": f.reason, "solver_output": truncate(f.o.Model, 20000),
+		}
+		suffix := " no-failing-input-found"
+		if f.o.Status == "sat" && f.o.vc != nil && !f.o.Canary {
+			rr := c.replay(f.o, tmp, o)
+			rep["replay"] = rr
+			if rr.Reproduced {
+				suffix = ""
+			}
+		}
+		if f.o.Script != "" {
+			if b, err := os.ReadFile(f.o.Script); err == nil && len(b) < 400000 {
+				rep["smt_script"] = string(b)
+			}
+		}
+		rp := writeReplay(o, prop, f.o.Name, rep)
+		fmt.Printf("FAILED %s: %s\n", f.o.Name, f.reason)
+		fmt.Printf("VIOLATION property=%s replay=%s obligation=%s%s\n", prop, rp, f.o.Name, suffix)
+	}
+
+	// evidence
+	var samples []map[string]interface{}
+	for i, ob := range obls {
+		if ob.Canary {
+			continue
+		}
+		if len(samples) < 12 || i%17 == 0 && len(samples) < 25 {
+			samples = append(samples, map[string]interface{}{"obligation": ob.Name, "kind": ob.Kind, "status": ob.Status, "backend": backendOf(ob), "time_s": round3(ob.TimeS), "at": ob.Pos})
+		}
+	}
+	abstracted := map[string]int{}
+	externals := map[string]int{}
+	called := map[string]int{}
+	var unsupported []string
+	for _, vc := range vcs {
+		for k, v := range vc.abstracted {
+			abstracted[vc.fnName()+" -> "+k] += v
+		}
+		for k, v := range vc.externals {
+			externals[k] += v
+		}
+		for k, v := range vc.calledContracts {
+			called[k] += v
+		}
+		for _, u := range vc.unsupported {
+			unsupported = append(unsupported, vc.fnName()+": "+u)
+		}
+	}
+	sort.Strings(unsupported)
+	ev := map[string]interface{}{
+		"property_id": prop, "tier": o.tier, "seed": o.seed, "level": "proof",
+		"wall_s": round3(time.Since(start).Seconds()), "violations": violations,
+		"coverage": map[string]interface{}{
+			"obligations": nClaimed, "discharged": nDischarged,
+			"checker_cmd":  fmt.Sprintf("/verif/bin/zvc check -prop %s -tier %s", prop, o.tier),
+			"trusted_base": trustedBase(trusted),
+			"samples":      samples,
+			"functions_under_contract": fnames,
+			"trusted_contracts_not_verified": trusted,
+			"obligations_by_kind": byKind, "discharged_by_backend": byBackend,
+			"solver_time_s": round3(solverTime), "vacuity_canaries_checked": nCanary,
+			"abstracted_calls_havoc_everything": abstracted,
+			"assumed_dependency_calls": externals,
+			"callee_contracts_used": called,
+			"constructs_outside_modelled_subset": unsupported,
+			"known_findings_reported": kfLines,
+			"scan": scanInfo,
+			"integers": "64/32/16/8-bit two's-complement bit-vectors (machine arithmetic, wrapping); float64 = SMT FloatingPoint(11,53) RNE; int->float conversion abstracted as an uninterpreted finite-valued function",
+			"explanation": "Every obligation is generated from the go/ssa form of /repo's current working tree (build tag verif) and the contract comments in zygo/zz_contracts_verif.go; callers are checked against callee contracts, never callee bodies.",
+		},
+		"assumptions": standingAssumptions(),
+	}
+	b, _ := json.MarshalIndent(ev, "", " ")
+	os.WriteFile(evPath, append(b, '\n'), 0o644)
+	fmt.Printf("zvc: property %s tier %s: %d obligations, %d discharged, %d canaries, %d known findings, %d violations, %.1fs\n",
+		prop, o.tier, nClaimed, nDischarged, nCanary, len(kfLines), violations, time.Since(start).Seconds())
+	if violations > 0 {
+		return 1
+	}
+	return 0
+}
+
+func backendOf(o *Obligation) string {
+	if o.Backend != "" {
+		return o.Backend
+	}
+	return o.Solver
+}
+
+func round3(f float64) float64 { return float64(int(f*1000)) / 1000 }
+
+func truncate(s string, n int) string {
+	if len(s) > n {
+		return s[:n] + "...[truncated]"
+	}
+	return s
+}
+
+func findKnown(known []KnownFinding, prop, name string) *KnownFinding {
+	for i := range known {
+		k := &known[i]
+		if k.Property == prop && k.Obligation == name && k.Status == "open" {
+			return k
+		}
+	}
+	return nil
+}
+
+func writeReplay(o checkOpts, prop, name string, v map[string]interface{}) string {
+	dir := filepath.Join(o.verif, "replays", prop)
+	os.MkdirAll(dir, 0o755)
+	p := filepath.Join(dir, sanitizeFile(name)+".json")
+	b, _ := json.MarshalIndent(v, "", " ")
+	os.WriteFile(p, append(b, '\n'), 0o644)
+	return p
+}
+
+func trustedBase(trusted []string) []string {
+	tb := []string{
+		"go/packages + go/ssa (x/tools v0.29.0): translation of Go source to SSA",
+		"zvc: encoding of SSA instructions, heap model (Burstall-Bornat field arrays), loop cutting, contract translation",
+		"SMT solvers z3 4.8.12, z3 5.1.0, cvc5 1.0.3 (unsat answers)",
+	}
+	for _, t := range trusted {
+		tb = append(tb, "trusted contract (assumed, not verified against a body): "+t)
+	}
+	return tb
+}
+
+func standingAssumptions() []string {
+	return []string{
+		"A-LEN: slice/string lengths and capacities are <= 2^40",
+		"A-ALLOC: allocation never fails; the Go stack never overflows",
+		"A-NONNIL: nil-pointer dereference panics are not obligations unless a contract says 'nonil' (pointers dereferenced are assumed non-nil)",
+		"A-EXT: calls into the standard library / third-party packages do not write interpreter state except through pointer or slice arguments passed directly, and do not call back into zygo unless handed a func value",
+		"T-LOG: debug printers P/Q/VPrintf/vv are pure",
+		"termination is not proved (partial correctness)",
+		"goroutines, channels, select, defer/recover bodies and reflection are outside the modelled subset; functions using them have those steps abstracted (whole heap havocked)",
+		"contracts of callees are assumed at call sites (modular verification); a callee's contract is verified under the property that tags it",
+	}
+}
+
+func exceptTerm(ob *Obligation, expr string) (string, error) {
+	vc := ob.vc
+	if vc == nil || vc.entryEnv == nil {
+		return "", fmt.Errorf("no entry environment")
+	}
+	// evaluate over parameters and the entry heap; emitted definitions must not
+	// extend the body prefix, so translate with a scratch body and inline.
+	saved := vc.body
+	t, err := vc.entryEnv.Bool(expr)
+	extra := vc.body[len(saved):]
+	vc.body = saved
+	if err != nil {
+		return "", err
+	}
+	if len(extra) > 0 {
+		return "", fmt.Errorf("except clause needs auxiliary definitions (simplify it)")
+	}
+	return t, nil
+}
